@@ -13,7 +13,7 @@ correspondence run, which prints EVERY live iovec after EVERY op on both sides),
 because Y's chunks are held by Y's OWN anchors (C05 `exposed_live`), whatever happened to X
 (dropped, cleared, consumed, taken).
 -/
-import Woodpile.Proofs.IovecFrame
+import Woodpile.Proofs.IovecHeap
 
 namespace Woodpile.Props.C20
 open Woodpile.Iovec Woodpile.Arena
@@ -90,6 +90,53 @@ theorem frame_valid {w w' : World} {op : Op} (hr : Reachable w) (h : w.step op =
       Live w' a.slice ∧ ∃ k, a.slice.region = .chunk k ∧ a.anchor.chunk = some k) := by
   have hinv := (hr.step h).inv
   exact ⟨fun _ _ hv _ hs => hinv.iov_slice_live hv hs, fun _ _ ha hl => hinv.aslice_live ha hl⟩
+
+/-! ### Content half: heap framing
+
+`GReach w caps` = "`w` is reachable, with its chunk-capacity ghost" (every reachable world has one:
+`C05.reachable_has_caps`).  Bytes are read through the symbolic heap (`Heap.byte`, `World.sliceBytes`). -/
+
+/-- `frame_heap`: every heap byte an operation changes lies at or above the end of EVERY slice of EVERY
+object that existed in that chunk — it belongs to the fresh allocation `[bump, …)` of the acting arena's
+cache chunk, or to a fresh chunk (`copy`, `read_n`'s `fill(0)` + reader) — or, for `backfill` on `X`
+only, inside a pending backref range of `X`.  (Merges, consumption, arena traffic, anchored-slice
+surgery write nothing.) -/
+theorem frame_heap {w w' : World} {caps : Nat → Nat} {op : Op} (hg : GReach w caps) (h : w.step op = some w') :
+    ∀ k j, w'.heap.byte k j ≠ w.heap.byte k j →
+      (∀ s, w.HasSlice s → s.region = .chunk k → s.off + s.len ≤ j) ∨
+      (∃ X b bs v key info a, op = .backfill X b bs ∧ w.iov X = some v ∧ (key, info) ∈ v.backrefs ∧
+        v.pendingRange info = some (k, a, info.len) ∧ a ≤ j ∧ j < a + info.len) :=
+  step_frame_heap hg h
+
+/-- `clone_independent`, every operation except `backfill`: after ANY such op by ANY object, NO slice of
+ANY object that existed before reads different bytes — in particular the stable bytes of a clone `Y`
+are unchanged by pushes (extending or merging), placeholder registration, consumption, clear, drop,
+take, arena traffic on the original `X` (and vice versa), whatever chunks they share.  No premise on
+how the clone was made is needed for these ops. -/
+theorem clone_independent_nonfill {w w' : World} {caps : Nat → Nat} {op : Op} (hg : GReach w caps)
+    (h : w.step op = some w') (hnb : ∀ i b bs, op ≠ .backfill i b bs) {j : Nat} {vY : Iov}
+    (hY : w.iov j = some vY) {s : Slice} (hs : s ∈ vY.slices) : w'.sliceBytes s = w.sliceBytes s :=
+  step_bytes_unchanged hg h hnb (Or.inl ⟨j, vY, hY, hs⟩) ((hg.reachable.inv.iovOk j vY hY).extOk s hs)
+
+/-- `clone_independent` for `backfill`, GIVEN `pending_private` (`PendingPrivate w`: the byte range of
+every pending placeholder of every iovec is covered by no slice of any other object): a backfill on `X`
+changes no byte of any slice of any other iovec `Y`.
+
+PARTIAL (name: `_partial`): what is missing for the full `clone_independent` is the lemma
+  `pending_private : ∀ history in which `clone i` is only applied when iovec `i` has no pending
+   placeholder, PendingPrivate w`
+(an owner-tracking invariant: a placeholder range is fresh when registered — `frame_heap` /
+`C05.no_overlap` — and afterwards slices of OTHER objects arise only as sub-ranges / in-place merges of
+slices of other objects, from detached slices, or from fresh allocations; `clone` is the one op that
+copies X's slices into another object, and it is excluded while X has a pending placeholder; it also
+needs the backref bookkeeping invariant that pending backrefs are sorted by slice index, so that
+`advance_slices` never shortens a placeholder's slice).  Not proved here; the correspondence run's
+per-object shadow oracle is what covers it on the real code. -/
+theorem clone_independent_backfill_partial {w w' : World} {caps : Nat → Nat} {X b : Nat} {bs : List UInt8}
+    (hg : GReach w caps) (hp : PendingPrivate w) (h : w.step (.backfill X b bs) = some w') {j : Nat} {vY : Iov}
+    (hj : j ≠ X) (hY : w.iov j = some vY) {s : Slice} (hs : s ∈ vY.slices) :
+    w'.sliceBytes s = w.sliceBytes s :=
+  backfill_bytes_unchanged hg hp h (Or.inl ⟨j, vY, hj, hY, hs⟩) ((hg.reachable.inv.iovOk j vY hY).extOk s hs)
 
 end Woodpile.Props.C20
 
